@@ -7,6 +7,7 @@ import (
 	"bytes"
 	"context"
 	"encoding/base64"
+	"encoding/csv"
 	"encoding/gob"
 	"encoding/json"
 	"fmt"
@@ -27,6 +28,7 @@ import (
 	"github.com/samber/ro"
 	robytes "github.com/samber/ro/plugins/bytes"
 	robase64 "github.com/samber/ro/plugins/encoding/base64"
+	rocsv "github.com/samber/ro/plugins/encoding/csv"
 	rogob "github.com/samber/ro/plugins/encoding/gob"
 	rojson "github.com/samber/ro/plugins/encoding/json"
 	roregexp "github.com/samber/ro/plugins/regexp"
@@ -501,6 +503,152 @@ var Scenarios = map[string]scenario{
 		sub.Unsubscribe()
 		lg.Add(rec.Ev{E: "end"})
 	},
+	// ------------------------------------------------------------------ CSV reader / writer, io.Writer sink
+	"csv.reader": func(lg *rec.Log, r *rand.Rand) {
+		// records of awkward fields, written by encoding/csv itself; one run in three is damaged (a bare quote, or a record with one field less)
+		n := 1 + r.Intn(6)
+		nf := 1 + r.Intn(3)
+		pool := []string{"", "a", "b c", "x,y", "he said \"hi\"", "line\nbreak", " lead", "trail ", "é", "1", "-2.5", "'q'", ";", "\t"}
+		var buf bytes.Buffer
+		w := csv.NewWriter(&buf)
+		for i := 0; i < n; i++ {
+			rec0 := make([]string, nf)
+			for j := range rec0 {
+				rec0[j] = pool[r.Intn(len(pool))]
+			}
+			_ = w.Write(rec0)
+		}
+		w.Flush()
+		text := buf.String()
+		switch r.Intn(3) {
+		case 0:
+			lines := strings.SplitAfter(text, "\n")
+			k := r.Intn(len(lines))
+			if r.Intn(2) == 0 {
+				lines[k] = "oops\"bare," + lines[k]
+			} else if nf > 1 {
+				lines[k] = "short\n" + lines[k]
+			}
+			text = strings.Join(lines, "")
+		}
+		in := &interner{ids: map[string]int{}}
+		lg.Add(rec.Ev{E: "hdr", S: "csv.NewCSVReader", K: "maperr"})
+		// the graph of the wrapped function: csv.Reader.Read called until it fails or reports io.EOF
+		ref := csv.NewReader(strings.NewReader(text))
+		type res struct {
+			rec []string
+			ok  bool
+		}
+		var want []res
+		for {
+			rc, err := ref.Read()
+			if err == io.EOF {
+				break
+			}
+			want = append(want, res{rc, err == nil})
+			if err != nil {
+				break
+			}
+		}
+		for i := range want {
+			lg.Add(rec.Ev{E: "in", I: i + 1, V: 1000 + i})
+		}
+		for i, x := range want {
+			if x.ok {
+				lg.Add(rec.Ev{E: "fx", V: 1000 + i, I: in.id(x.rec), B: true})
+			} else {
+				lg.Add(rec.Ev{E: "fx", V: 1000 + i, I: 0, B: false})
+			}
+		}
+		var delivered [][]string
+		sub := rocsv.NewCSVReader(csv.NewReader(strings.NewReader(text))).SubscribeWithContext(context.WithValue(context.Background(), rec.KeySub, true), ro.NewObserverWithContext(
+			func(ctx context.Context, v []string) {
+				delivered = append(delivered, v)
+				lg.Add(rec.Ev{E: "out", K: "N", V: in.id(v)})
+				lg.Add(rec.Ev{E: "octx", B: ctx != nil && ctx.Value(rec.KeySub) != nil})
+			},
+			func(ctx context.Context, err error) {
+				lg.Add(rec.Ev{E: "out", K: "E"})
+				lg.Add(rec.Ev{E: "octx", B: ctx != nil && ctx.Value(rec.KeySub) != nil})
+			},
+			func(ctx context.Context) {
+				lg.Add(rec.Ev{E: "out", K: "C"})
+				lg.Add(rec.Ev{E: "octx", B: ctx != nil && ctx.Value(rec.KeySub) != nil})
+			},
+		))
+		sub.Unsubscribe()
+		for j, v := range delivered { // a delivered record must not change afterwards
+			lg.Add(rec.Ev{E: "outafter", I: j + 1, V: in.id(v)})
+		}
+		lg.Add(rec.Ev{E: "torn"})
+		lg.Add(rec.Ev{E: "end"})
+	},
+	"csv.writer": func(lg *rec.Log, r *rand.Rand) {
+		// rows through NewCSVWriter into a csv.Writer over a sink that may fail from its k-th Write on; the reference is csv.Writer itself
+		// (Write per row, then Flush and Error): items = the rows plus the final flush, weight 1 per row and 0 for the flush
+		n := 1 + r.Intn(5)
+		pool := []string{"", "a", "x,y", "q\"q", "line\nbreak", strings.Repeat("wide", 700)} // the wide field overflows csv.Writer's 4 KiB buffer: the sink is hit before the flush
+		rows := make([][]string, n)
+		for i := range rows {
+			rows[i] = []string{pool[r.Intn(len(pool))], pool[r.Intn(len(pool))]}
+		}
+		failFrom := []int{0, 0, 1, 2}[r.Intn(4)] // 0 = the sink never fails
+		refSink := &failingWriter{failFrom: failFrom}
+		ref := csv.NewWriter(refSink)
+		lg.Add(rec.Ev{E: "hdr", S: "csv.NewCSVWriter", K: "writer", B: false})
+		for i := range rows {
+			lg.Add(rec.Ev{E: "in", I: i + 1, V: 1})
+		}
+		lg.Add(rec.Ev{E: "in", I: n + 1, V: 0})
+		for _, row := range rows {
+			lg.Add(rec.Ev{E: "fx", B: ref.Write(row) == nil})
+		}
+		ref.Flush()
+		lg.Add(rec.Ev{E: "fx", B: ref.Error() == nil})
+		sink := &failingWriter{failFrom: failFrom}
+		runSink(lg, rows, rocsv.NewCSVWriter(csv.NewWriter(sink)))
+		if failFrom == 0 {
+			// encoding followed by decoding is the identity
+			back, err := csv.NewReader(bytes.NewReader(sink.buf.Bytes())).ReadAll()
+			in := &interner{ids: map[string]int{}}
+			if err != nil {
+				back = nil
+			}
+			lg.Add(rec.Ev{E: "rt", V: in.id(rows), I: in.id(back)})
+		}
+		lg.Add(rec.Ev{E: "end"})
+	},
+	"stdio.writer": func(lg *rec.Log, r *rand.Rand) {
+		// chunks through NewIOWriter into a writer that fails at its k-th Write (that call only, or from then on): the count is the bytes accepted
+		// before the failure, the Error is the writer's, and nothing is written after the failure was reported
+		n := 1 + r.Intn(6)
+		chunks := make([][]byte, n)
+		for i := range chunks {
+			chunks[i] = []byte(strings.Repeat(string(rune('a'+i)), r.Intn(5)))
+		}
+		failFrom := []int{0, 0, 1, 2, 3}[r.Intn(5)]
+		once := r.Intn(2) == 0
+		lg.Add(rec.Ev{E: "hdr", S: "stdio.NewIOWriter", K: "writer", B: true})
+		var prefix []byte
+		failed := false
+		for i, c := range chunks {
+			lg.Add(rec.Ev{E: "in", I: i + 1, V: len(c)})
+		}
+		for i, c := range chunks {
+			ok := failFrom == 0 || i+1 < failFrom || (once && i+1 > failFrom)
+			if !failed {
+				prefix = append(prefix, c...) // the failing Write call is still a call the writer sees
+			}
+			if !ok {
+				failed = true
+			}
+			lg.Add(rec.Ev{E: "fx", B: ok})
+		}
+		lg.Add(rec.Ev{E: "src", V: len(prefix), I: hashBytes(prefix)})
+		sink := &failingWriter{failFrom: failFrom, once: once, lg: lg}
+		runSink(lg, chunks, rostdio.NewIOWriter(sink))
+		lg.Add(rec.Ev{E: "end"})
+	},
 	// ------------------------------------------------------------------ stdio readers
 	"stdio.reader": func(lg *rec.Log, r *rand.Rand) {
 		// boundary sizes are cycled, not drawn: every run of 16 rounds covers both readers on every size (the huge line first)
@@ -613,6 +761,61 @@ func isASCII(s string) bool {
 		}
 	}
 	return true
+}
+
+// failingWriter accepts everything (failFrom = 0) or fails at its failFrom-th Write - that call only (once) or from then on; with a log it
+// reports every Write call it sees as a `chunk` event (length, rolling hash of everything it was handed).
+type failingWriter struct {
+	failFrom int
+	once     bool
+	calls    int
+	buf      bytes.Buffer
+	seen     []byte
+	lg       *rec.Log
+}
+
+func (w *failingWriter) Write(p []byte) (int, error) {
+	w.calls++
+	if w.lg != nil {
+		w.seen = append(w.seen, p...)
+		w.lg.Add(rec.Ev{E: "chunk", V: len(p), I: hashBytes(w.seen)})
+	}
+	if w.failFrom != 0 && (w.calls == w.failFrom || (!w.once && w.calls > w.failFrom)) {
+		return 0, fmt.Errorf("sink: write %d refused", w.calls)
+	}
+	return w.buf.Write(p)
+}
+
+// runSink drives a sink operator (items in, one count out) over a synchronous source and logs its output, the release of the source and the contexts.
+func runSink[I any](lg *rec.Log, items []I, op func(ro.Observable[I]) ro.Observable[int]) {
+	src := ro.NewUnsafeObservableWithContext(func(ctx context.Context, d ro.Observer[I]) ro.Teardown {
+		ctx = context.WithValue(ctx, rec.KeyMid, true)
+		for _, x := range items {
+			d.NextWithContext(ctx, x)
+		}
+		d.CompleteWithContext(ctx)
+		return func() { lg.Add(rec.Ev{E: "torn"}) }
+	})
+	defer func() {
+		if e := recover(); e != nil {
+			lg.Add(rec.Ev{E: "panic", S: fmt.Sprint(e)})
+		}
+	}()
+	sub := op(src).SubscribeWithContext(context.WithValue(context.Background(), rec.KeySub, true), ro.NewObserverWithContext(
+		func(ctx context.Context, v int) {
+			lg.Add(rec.Ev{E: "out", K: "N", V: v})
+			lg.Add(rec.Ev{E: "octx", B: ctxKept(ctx)})
+		},
+		func(ctx context.Context, err error) {
+			lg.Add(rec.Ev{E: "out", K: "E"})
+			lg.Add(rec.Ev{E: "octx", B: ctxKept(ctx)})
+		},
+		func(ctx context.Context) {
+			lg.Add(rec.Ev{E: "out", K: "C"})
+			lg.Add(rec.Ev{E: "octx", B: ctxKept(ctx)})
+		},
+	))
+	sub.Unsubscribe()
 }
 
 func hashBytes(b []byte) int {
